@@ -112,6 +112,27 @@ func ZeroOf
   property C20
   ensures result == zero(T)
 
+// IsZero: true for the zero value; otherwise the result of the value's own IsZero() method when its dynamic type has
+// one (ASSUMED pure), and false when it has none.
+func IsZero
+  property C20
+  opt puremethods IsZero
+  ensures[def] result == (value == zero(T) || (hasmethod(value, IsZero) && dyncall(value, IsZero)))
+
+// IsNil: true exactly when the value, converted to `any`, is the nil interface: for an interface-typed T that is
+// "value == nil"; for every other T the conversion yields a non-nil interface (even for a nil pointer), so false.
+func IsNil
+  property C20
+  ensures[def] result == (iface(value) == nil)
+
+// TernCast: the value asserted to T when cond (panics exactly when cond holds and the dynamic type is not T),
+// ifFalse otherwise.
+func TernCast
+  property C20
+  panics_iff cond && !hastype(value, T)
+  ensures[true]  cond ==> result == unbox(value, T)
+  ensures[false] !cond ==> result == ifFalse
+
 func Coal
   property C20
   ensures[first] forall k :: {values[k]} 0 <= k && k < len(values) && values[k] != zero(T) && (forall j :: {values[j]} 0 <= j && j < k ==> values[j] == zero(T)) ==> result == values[k]
